@@ -100,14 +100,20 @@ func start(cfg *config.Config) {
 	// input is from a live GNSS device, the function will run until
 	// the device stops sending or this process is killed.
 	recorderChannel := make(chan []byte)
-	defer close(recorderChannel)
 	dailyRecorder := newLogWriter(cfg)
-	go recorder(recorderChannel, dailyRecorder, cfg)
+	recorderDone := make(chan struct{})
+	go func() {
+		defer close(recorderDone)
+		recorder(recorderChannel, dailyRecorder, cfg)
+	}()
 
 	readAndWrite(recorderChannel, cfg)
 
-	// Done.  The defer above closes the recorder channel, which stops
-	// the recorder goroutine.
+	// Done.  Closing the recorder channel stops the recorder goroutine once it
+	// has written the data it already holds.  Wait for that - the program exits
+	// as soon as this function returns.
+	close(recorderChannel)
+	<-recorderDone
 }
 
 // readAndWrite runs until the input is exhausted (which may never
